@@ -150,12 +150,65 @@ def _strip_doc(body):
     return body
 
 
-def expand_call(call, helper, kind, targets, uid, self_arg=None):
+_MODEL_CLASSES = ('PCBO', 'PCSO', 'PUBO', 'PUSO', 'QUBO', 'QUSO')
+
+
+def _bind_unbound_calls(node, selfname):
+    """`PCBO.m(obj, args)` with obj not the enclosing method's self  ->  `obj.m(args)` (inside inlined helper bodies only:
+    a callback parameter that received an unbound method)."""
+    for c in ast.walk(node):
+        if isinstance(c, ast.Call) and isinstance(c.func, ast.Attribute) and isinstance(c.func.value, ast.Name) \
+                and c.func.value.id in _MODEL_CLASSES and c.args and not isinstance(c.args[0], ast.Starred) \
+                and not (isinstance(c.args[0], ast.Name) and c.args[0].id == selfname):
+            recv = c.args[0]
+            c.func = ast.copy_location(ast.Attribute(value=recv, attr=c.func.attr, ctx=ast.Load()), c.func)
+            c.args = list(c.args[1:])
+
+
+def _dead_after(fnode, stmt, call):
+    """Names passed to `call` that the caller never reads after statement `stmt` (locals or parameters of the caller;
+    a statement inside a loop is followed by the whole loop)."""
+    names = {x.id for x in call.args if isinstance(x, ast.Name)} | {k.value.id for k in call.keywords if isinstance(k.value, ast.Name)}
+    if not names or not hasattr(stmt, 'end_lineno') or stmt.end_lineno is None:
+        return ()
+    a = fnode.args
+    own = {x.arg for x in a.posonlyargs + a.args + a.kwonlyargs}
+    own |= {n.id for n in ast.walk(fnode) if isinstance(n, ast.Name) and isinstance(n.ctx, ast.Store)}
+    decl = {nm for n in ast.walk(fnode) if isinstance(n, (ast.Global, ast.Nonlocal)) for nm in n.names}
+    region_start = (stmt.end_lineno, stmt.end_col_offset or 0)
+    loop = None
+    p = getattr(stmt, '_parent', None)
+    while p is not None and p is not fnode:
+        if isinstance(p, (ast.For, ast.While, ast.AsyncFor)):
+            loop = p
+        if isinstance(p, (ast.FunctionDef, ast.AsyncFunctionDef, ast.Lambda, ast.ClassDef)):
+            return ()
+        p = getattr(p, '_parent', None)
+    if p is not fnode:
+        return ()
+    inside_stmt = {id(x) for x in ast.walk(stmt)}
+    live = set()
+    for n in ast.walk(fnode):
+        if isinstance(n, ast.Name) and n.id in names and isinstance(n.ctx, ast.Load) and id(n) not in inside_stmt:
+            pos = (getattr(n, 'lineno', 0), getattr(n, 'col_offset', 0))
+            if pos >= region_start:
+                live.add(n.id)
+            elif loop is not None and (loop.lineno, loop.col_offset) <= pos:
+                live.add(n.id)
+    # nested functions may read the name at any time
+    for n in ast.walk(fnode):
+        if n is not fnode and isinstance(n, (ast.FunctionDef, ast.AsyncFunctionDef, ast.Lambda)):
+            live |= {x.id for x in ast.walk(n) if isinstance(x, ast.Name) and x.id in names}
+    return tuple(sorted((names & own) - live - decl))
+
+
+def expand_call(call, helper, kind, targets, uid, self_arg=None, dead=()):
     """Statements replacing the statement that contains `call` (kind: 'assign' | 'return' | 'expr')."""
     a = helper.args
-    if a.vararg or a.kwarg or a.kwonlyargs:
+    if a.vararg or a.kwonlyargs:
         return None
     params = [x.arg for x in a.posonlyargs + a.args]
+    kwname = a.kwarg.arg if a.kwarg else None
     args = list(call.args)
     if self_arg is not None:
         args = [self_arg] + args
@@ -164,10 +217,14 @@ def expand_call(call, helper, kind, targets, uid, self_arg=None):
     bound = {}
     for p, x in zip(params, args):
         bound[p] = x
+    kw_extra = []
     for k in call.keywords:
-        if k.arg not in params or k.arg in bound:
+        if k.arg in params and k.arg not in bound:
+            bound[k.arg] = k.value
+        elif kwname is not None and k.arg is not None and k.arg not in params:
+            kw_extra.append(k)
+        else:
             return None
-        bound[k.arg] = k.value
     defaults = dict(zip(params[len(params) - len(a.defaults):], a.defaults))
     for p in params:
         if p not in bound:
@@ -177,6 +234,16 @@ def expand_call(call, helper, kind, targets, uid, self_arg=None):
     body = _strip_doc(helper.body)
     if not _structured(body):
         return None
+    if kwname is not None:
+        # **kwargs may only be passed on as **kwargs
+        okk = True
+        for n_ in [x for s_ in body for x in ast.walk(s_)]:
+            if isinstance(n_, ast.Name) and n_.id == kwname:
+                par = getattr(n_, '_parent', None)
+                if not (isinstance(par, ast.keyword) and par.arg is None):
+                    okk = False
+        if not okk:
+            return None
     stores = {n.id for s in body for n in ast.walk(s) if isinstance(n, ast.Name) and isinstance(n.ctx, (ast.Store, ast.Del))}
     mapping, pre = {}, []
     argnames = [bound[p].id for p in params if isinstance(bound[p], ast.Name)]
@@ -187,11 +254,13 @@ def expand_call(call, helper, kind, targets, uid, self_arg=None):
         # a parameter the helper rebinds may still take the caller's name when the caller's variable is dead
         # afterwards (`return h(a)`) or is assigned the helper's final value of that parameter (`a = h(a)`)
         exact = isinstance(x, ast.Name) and p in stores and argnames.count(x.id) == 1 and (
-            kind == 'return' or (tname == x.id and rets and all(isinstance(r.value, ast.Name) and r.value.id == p for r in rets)))
+            kind == 'return' or x.id in dead or (tname == x.id and rets and all(isinstance(r.value, ast.Name) and r.value.id == p for r in rets)))
         if isinstance(x, ast.Name) and (p not in stores or exact):
             mapping[p] = x.id
         elif isinstance(x, ast.Constant) and p not in stores:
             mapping[p] = x
+        elif isinstance(x, ast.Attribute) and isinstance(x.value, ast.Name) and p not in stores and x.value.id[:1].isupper():
+            mapping[p] = x          # e.g. an unbound method PCBO.add_constraint_eq_zero passed as a callback
         else:
             nm = '%s__%s%d' % (p, helper.name.strip('_'), uid)
             mapping[p] = nm
@@ -220,6 +289,19 @@ def expand_call(call, helper, kind, targets, uid, self_arg=None):
         if loc not in mapping:
             mapping[loc] = '%s__%s%d' % (loc, helper.name.strip('_'), uid)
     body = [_Renamer(mapping).visit(copy.deepcopy(s)) for s in body]
+    if kwname is not None:
+        for s_ in body:
+            for c_ in ast.walk(s_):
+                if isinstance(c_, ast.Call):
+                    newk = []
+                    for k_ in c_.keywords:
+                        if k_.arg is None and isinstance(k_.value, ast.Name) and k_.value.id in (kwname, mapping.get(kwname)):
+                            newk += [ast.keyword(arg=e.arg, value=_copy(e.value)) for e in kw_extra]
+                        else:
+                            newk.append(k_)
+                    c_.keywords = newk
+    for s_ in body:
+        _bind_unbound_calls(s_, self_arg.id if isinstance(self_arg, ast.Name) else None)
 
     def make_result(value):
         if kind == 'return':
@@ -231,6 +313,19 @@ def expand_call(call, helper, kind, targets, uid, self_arg=None):
             return []
         if len(targets) == 1 and ast.dump(targets[0]).replace('Store()', 'Load()') == ast.dump(v):
             return []
+        if len(targets) == 1 and isinstance(targets[0], ast.Tuple) and isinstance(v, ast.Tuple) and len(v.elts) == len(targets[0].elts) \
+                and all(isinstance(t_, ast.Name) for t_ in targets[0].elts):
+            # element-wise, when no target is read by a later element (no swap semantics needed)
+            tn = [t_.id for t_ in targets[0].elts]
+            changed = [None if (isinstance(e, ast.Name) and e.id == t_) else t_ for t_, e in zip(tn, v.elts)]
+            reads_later = any(isinstance(x, ast.Name) and x.id in changed[:i] for i, e in enumerate(v.elts) for x in ast.walk(e))
+            if not reads_later:
+                out_ = []
+                for t_, e in zip(targets[0].elts, v.elts):
+                    if isinstance(e, ast.Name) and e.id == t_.id:
+                        continue
+                    out_.append(ast.Assign(targets=[ast.Name(id=t_.id, ctx=ast.Store())], value=e))
+                return out_
         return [ast.Assign(targets=copy.deepcopy(targets), value=v)]
     low, allret = _lower(body, make_result, [])
     if kind != 'return' and not allret:
@@ -459,6 +554,129 @@ def _fold_field_aliases(fnode):
     return True
 
 
+_PURE_BUILTINS = {'isinstance', 'len', 'type', 'id', 'callable', 'hasattr'}
+
+
+def _header_exprs(st):
+    """the expressions evaluated by the CFG node of statement `st` (header of a compound statement, whole simple one)"""
+    if isinstance(st, (ast.If, ast.While)):
+        return [st.test]
+    if isinstance(st, (ast.For, ast.AsyncFor)):
+        return [st.iter, st.target]
+    if isinstance(st, (ast.With, ast.AsyncWith)):
+        return [i.context_expr for i in st.items] + [i.optional_vars for i in st.items if i.optional_vars is not None]
+    if isinstance(st, (ast.Try, ast.FunctionDef, ast.ClassDef, ast.AsyncFunctionDef)):
+        return []
+    return [st]
+
+
+def _fold_attr_snapshots(fnode):
+    """`c = other.best` (a local bound once to a public attribute of a parameter) read only while the attribute cannot
+    have changed - no call and no store to an attribute of that name on any path from the snapshot to the read - is the
+    attribute itself: `c` -> `other.best`.  The rules look for the field."""
+    from .cfg import CFG
+    a = fnode.args
+    params = {x.arg for x in a.posonlyargs + a.args + a.kwonlyargs}
+    count = {}
+    for n in ast.walk(fnode):
+        if isinstance(n, ast.Name) and isinstance(n.ctx, (ast.Store, ast.Del)):
+            count[n.id] = count.get(n.id, 0) + 1
+    cands = {}
+    for n in ast.walk(fnode):
+        if isinstance(n, ast.Assign) and len(n.targets) == 1 and isinstance(n.targets[0], ast.Name) \
+                and isinstance(n.value, ast.Attribute) and isinstance(n.value.value, ast.Name) and n.value.value.id in params \
+                and not n.value.attr.startswith('_') and count.get(n.targets[0].id) == 1 and n.targets[0].id not in params \
+                and count.get(n.value.value.id, 0) == 0:
+            cands[n.targets[0].id] = n
+    if not cands:
+        return False
+    g = CFG(fnode)
+    stmts = [x for x in g.nodes if isinstance(x, ast.AST)]
+    if not all(any(x is n for x in stmts) for n in cands.values()):
+        return False
+
+    def facts(st, attr, name):
+        calls = stores = reads = False
+        for e in _header_exprs(st):
+            for x in ast.walk(e):
+                if isinstance(x, ast.Call) and not (isinstance(x.func, ast.Name) and x.func.id in _PURE_BUILTINS):
+                    calls = True
+                if isinstance(x, ast.Attribute) and x.attr == attr and isinstance(x.ctx, (ast.Store, ast.Del)):
+                    stores = True
+                if isinstance(x, (ast.Lambda, ast.ListComp, ast.SetComp, ast.DictComp, ast.GeneratorExp, ast.Await, ast.Yield)):
+                    calls = True
+                if isinstance(x, ast.Name) and x.id == name and isinstance(x.ctx, ast.Load):
+                    reads = True
+        return calls, stores, reads
+    val = {}
+    for name, snap in cands.items():
+        attr = snap.value.attr
+        fx = {id(st): facts(st, attr, name) for st in stmts}
+        # nested functions reading the name: give up
+        if any(isinstance(x, ast.Name) and x.id == name for st in stmts if isinstance(st, (ast.FunctionDef, ast.AsyncFunctionDef, ast.ClassDef))
+               for x in ast.walk(st)):
+            continue
+        readers = [st for st in stmts if fx[id(st)][2]]
+        impure = [st for st in stmts if st is not snap and (fx[id(st)][0] or fx[id(st)][1])]
+        ok = bool(readers)
+        for r in readers:
+            if fx[id(r)][0]:
+                ok = False      # a call inside the reading statement: evaluation order
+            for i in impure:
+                if i is r:
+                    if any(g.reaches(b_, r) for b_, _l in g.succ.get(r, ())):
+                        ok = False      # in a loop: the store of one iteration precedes the read of the next
+                    continue
+                if g.reaches(snap, i) and g.reaches(i, r):
+                    ok = False
+        if ok:
+            val[name] = snap
+    if not val:
+        return False
+
+    class T(ast.NodeTransformer):
+        def visit_Name(self, node):
+            if node.id in val and isinstance(node.ctx, ast.Load):
+                return ast.copy_location(_copy(val[node.id].value), node)
+            return node
+    fnode.body = [T().visit(s_) for s_ in fnode.body]
+    return True
+
+
+_OPCMP = {'lt': ast.Lt, 'le': ast.LtE, 'eq': ast.Eq, 'ne': ast.NotEq, 'ge': ast.GtE, 'gt': ast.Gt, 'is_': ast.Is, 'is_not': ast.IsNot,
+          'contains': None}
+_OPBIN = {'add': ast.Add, 'sub': ast.Sub, 'mul': ast.Mult, 'truediv': ast.Div, 'floordiv': ast.FloorDiv, 'mod': ast.Mod, 'pow': ast.Pow}
+_OPINPLACE = {'iadd': ast.Add, 'isub': ast.Sub, 'imul': ast.Mult, 'itruediv': ast.Div, 'ifloordiv': ast.FloorDiv, 'ipow': ast.Pow}
+
+
+def _operator_calls(fnode):
+    """`operator.ne(a, b)` -> `a != b`, `operator.add(a, b)` -> `a + b`, `operator.not_(a)` -> `not a`, `operator.neg(a)` -> `-a`
+    (the functional spelling of an operator, typically after a table of operators was unrolled)."""
+    changed = [False]
+
+    class T(ast.NodeTransformer):
+        def visit_Call(self, node):
+            self.generic_visit(node)
+            f = node.func
+            if isinstance(f, ast.Attribute) and isinstance(f.value, ast.Name) and f.value.id == 'operator' and not node.keywords:
+                nm, a = f.attr, node.args
+                if nm in _OPCMP and _OPCMP[nm] is not None and len(a) == 2:
+                    changed[0] = True
+                    return ast.copy_location(ast.Compare(left=a[0], ops=[_OPCMP[nm]()], comparators=[a[1]]), node)
+                if nm in _OPBIN and len(a) == 2:
+                    changed[0] = True
+                    return ast.copy_location(ast.BinOp(left=a[0], op=_OPBIN[nm](), right=a[1]), node)
+                if nm == 'not_' and len(a) == 1:
+                    changed[0] = True
+                    return ast.copy_location(ast.UnaryOp(op=ast.Not(), operand=a[0]), node)
+                if nm == 'neg' and len(a) == 1:
+                    changed[0] = True
+                    return ast.copy_location(ast.UnaryOp(op=ast.USub(), operand=a[0]), node)
+            return node
+    fnode.body = [T().visit(s_) for s_ in fnode.body]
+    return changed[0]
+
+
 def _fold_condition_vars(fnode):
     """`c = E ; if c: ...` / `while c:` with c used nowhere else  ->  `if E: ...` (a test that was given a name)."""
     uses = {}
@@ -653,7 +871,7 @@ def inline_program(prog):
                 h, self_arg = find_helper(fn, call)
                 if h is not None:
                     uid[0] += 1
-                    new = expand_call(call, h, kind, targets, uid[0], self_arg)
+                    new = expand_call(call, h, kind, targets, uid[0], self_arg, _dead_after(fn.node, s, call) if depth == 0 else ())
                     if new is not None:
                         for n in new:
                             for x in ast.walk(n):
@@ -676,10 +894,12 @@ def inline_program(prog):
         before = count
         fn.node.body = rewrite_block(fn, fn.node.body, 0)
         folded = _unroll_table_loops(fn.node, fn.module.tree)
+        folded = _operator_calls(fn.node) or folded
         folded = _fold_return_vars(fn.node) or folded
         folded = _expand_star_tuples(fn.node) or folded
         folded = _fold_condition_vars(fn.node) or folded
         folded = _fold_field_aliases(fn.node) or folded
+        folded = _fold_attr_snapshots(fn.node) or folded
         folded = _split_or_guards(fn.node) or folded
         folded = _list_accumulators_to_tuples(fn.node) or folded
         if count != before or folded:
